@@ -109,7 +109,7 @@ def line_statements(text):
     return out
 
 
-def judge(text, res, *, expect_statements=None, cls=''):
+def judge(text, res, *, expect_statements=None, cls='', expect_blocks=None):
     """Apply the oracle of C13 to one script."""
     before = _state()
     del _tripped[:]
@@ -117,7 +117,7 @@ def judge(text, res, *, expect_statements=None, cls=''):
     signal.setitimer(signal.ITIMER_REAL, 5.0)
     try:
         try:
-            _judge(text, res, expect_statements, cls)
+            _judge(text, res, expect_statements, cls, expect_blocks)
         finally:
             signal.setitimer(signal.ITIMER_REAL, 0)
     except _Timeout:
@@ -137,7 +137,7 @@ def judge(text, res, *, expect_statements=None, cls=''):
         warnings.simplefilter('ignore')
 
 
-def _judge(text, res, expect_statements, cls):
+def _judge(text, res, expect_statements, cls, expect_blocks=None):
     # syntax checking off: still total, still only the parser's own errors (nothing further is promised about the result)
     try:
         fsic.parse_model(text, check_syntax=False)
@@ -173,6 +173,21 @@ def _judge(text, res, expect_statements, cls):
     except BaseException as e:  # noqa: BLE001
         res.fail('instantiate/' + _bucket(e) + cls, f'{text!r}: built class cannot be instantiated: {type(e).__name__}: {e}')
         return
+    if expect_blocks is not None:
+        # every non-blank statement (equation or fenced block, even an empty or comment-only one) is one block handed to the
+        # code generator: counted through a custom converter
+        seen_blocks = []
+        try:
+            fsic.build_model(symbols, converter=lambda sym: (seen_blocks.append(sym.name), sym.code)[1])
+        except _Timeout:
+            raise
+        except BaseException as e:  # noqa: BLE001
+            res.fail('build/' + _bucket(e) + '/custom-converter' + cls, f'{text!r}: build_model with a converter raised {type(e).__name__}: {e}')
+            return
+        if len(seen_blocks) != expect_blocks:
+            how = 'dropped' if len(seen_blocks) < expect_blocks else 'duplicated'
+            res.fail(f'blocks-{how}' + cls, f'{text!r}: {expect_blocks} statement(s) in the script, the code generator was handed '
+                     f'{len(seen_blocks)} block(s)')
     if expect_statements is not None:
         got = count_eval_statements(Model.CODE)
         if got != expect_statements:
@@ -360,6 +375,21 @@ def expected_statements(prog):
     return n
 
 
+def expected_blocks(prog):
+    """Distinct equations plus fenced blocks (each fenced block is a statement of its own, whatever it holds)."""
+    seen = set()
+    n = 0
+    for s in prog:
+        if s[0] == 'block':
+            n += 1
+        else:
+            key = G.dump(G.statement_pyast(s))
+            if key not in seen:
+                seen.add(key)
+                n += 1
+    return n
+
+
 def plant_canary(prog, where):
     """Replace parts of a valid program by calls of the canary."""
     out = []
@@ -391,7 +421,7 @@ def check_valid(case):
     if ref.reject or ref.function_variable_clash:
         judge(text, res)
         return res
-    judge(text, res, expect_statements=expected_statements(prog), cls='/valid-script')
+    judge(text, res, expect_statements=expected_statements(prog), cls='/valid-script', expect_blocks=expected_blocks(prog))
     if 'rejected-with-own-error' in res.classes:
         res.fail('valid-script-rejected', f'{text!r} is inside the documented syntax but was rejected')
     return res
@@ -399,7 +429,9 @@ def check_valid(case):
 
 def strat_valid():
     from hypothesis import strategies as st
-    block = st.sampled_from([['block', 'pass'], ['block', 'x = 1'], ['block', 'self._N = getattr(self, "_N", 0) + 1']])
+    block = st.sampled_from([['block', 'pass'], ['block', 'x = 1'], ['block', 'self._N = getattr(self, "_N", 0) + 1'],
+                             # blocks without any code: still statements of the script
+                             ['block', ''], ['block', '# a remark'], ['block', 'pass  # noqa']])
 
     def with_blocks(prog, extra, where):
         out = list(prog)
